@@ -966,12 +966,104 @@ Definition c11_hwire_run (case obs : sx) : verdict :=
   | _ => BadCase
   end.
 
+(* ---- which = 14: BURSTS of simultaneous requests on FRESH plugin instances: the source ids --------------------------------
+   case = (rounds (phase ...)), phase = (request ...), request = (#read ...) (bytes only, at least one event).
+   A round = one fresh instance; the n requests of a phase enter ServeHTTP at the same instant and each blocks in its first
+   Read until all n hold a source id; the next phase starts when all are answered.  obs = the distinct round observations,
+   round = (phaseobs ...), phaseobs = ((status ...) (id ...) ((event ...) ...)): status per request, the source ids that
+   controller.In saw (ascending), and per source id the data of its In calls in arrival order (the groups in any order).
+   Judgement per phase ([hw] = the largest number of requests that were live at once on the instance so far, this phase
+   included): every request answered 200; the ids are pairwise different, as many as requests, and 0 <= id < hw (what
+   [id_run] allows: theorems http_sourceid_dense / http_sourceid_high_water); the groups are, up to their order, exactly
+   the newline splits of the bodies - evaluated per SOURCE ID, no attribution of events to requests by content. *)
+Fixpoint z_nodup (l : list Z) : bool :=
+  match l with
+  | [] => true
+  | x :: r => negb (existsb (Z.eqb x) r) && z_nodup r
+  end.
+
+Fixpoint remove_first (e : sx) (l : list sx) : option (list sx) :=
+  match l with
+  | [] => None
+  | x :: r => if sx_eqb e x then Some r
+              else match remove_first e r with Some r' => Some (x :: r') | None => None end
+  end.
+
+Fixpoint perm_match (exp obs : list sx) : bool :=
+  match exp with
+  | [] => is_nil obs
+  | e :: r => match remove_first e obs with Some o' => perm_match r o' | None => false end
+  end.
+
+Definition z_of_sx (s : sx) : option Z := match s with SZ z => Some z | _ => None end.
+
+(* the events one request must deliver under its own source id *)
+Definition burst_expected (reads : list rd) : sx := SL (map SB (split_body (concat (chunks_of reads)))).
+
+Definition burst_phase_ok (hw : Z) (reqs : list (list rd)) (o : sx) : bool :=
+  match o with
+  | SL [SL sts; SL ids; SL groups] =>
+      match opt_map z_of_sx ids with
+      | Some zs =>
+          sx_eqb (SL sts) (SL (map (fun _ => SZ 200) reqs)) &&
+          z_nodup zs && forallb (fun z => Z.leb 0 z && Z.ltb z hw) zs &&
+          Nat.eqb (length zs) (length reqs) &&
+          perm_match (map burst_expected reqs) groups
+      | None => false
+      end
+  | _ => false
+  end.
+
+Fixpoint burst_round_ok (hw : Z) (phases : list (list (list rd))) (os : list sx) : bool :=
+  match phases, os with
+  | [], [] => true
+  | ph :: phs, o :: os' =>
+      let hw' := Z.max hw (Z.of_nat (length ph)) in
+      burst_phase_ok hw' ph o && burst_round_ok hw' phs os'
+  | _, _ => false
+  end.
+
+Definition burst_req_of_sx (s : sx) : option (list rd) :=
+  match as_list rd_of_sx s with
+  | Some reads =>
+      if no_err reads && negb (is_nil (split_body (concat (chunks_of reads)))) then Some reads else None
+  | None => None
+  end.
+
+Definition burst_phase_of_sx (s : sx) : option (list (list rd)) :=
+  match as_list burst_req_of_sx s with
+  | Some (r :: rs) => Some (r :: rs)
+  | _ => None
+  end.
+
+(* what the model answers for a phase: ids 0 .. n-1 (a burst on a fresh instance) *)
+Definition burst_phase_model (reqs : list (list rd)) : sx :=
+  SL [SL (map (fun _ => SZ 200) reqs);
+      SL (map (fun k => SZ (Z.of_nat k)) (List.seq 0 (length reqs)));
+      SL (map burst_expected reqs)].
+
+Definition c11_burst_run (case obs : sx) : verdict :=
+  match case, obs with
+  | SL [SZ rounds; phases], SL (o1 :: orest) =>
+      match as_list burst_phase_of_sx phases with
+      | Some phs =>
+          if Z.ltb 0 rounds then
+            let m := SL [SL (map burst_phase_model phs)] in
+            if forallb (fun o => match o with SL os => burst_round_ok 0 phs os | _ => false end) (o1 :: orest)
+            then Agree else Violates m
+          else BadCase
+      | None => BadCase
+      end
+  | _, _ => BadCase
+  end.
+
 (* entry point of the model runner (extracted, and evaluated by vm_compute in the cross-check):
    0 / 2 = one request (plain / gzip), 1 = source-id pool, 3 = concurrent requests, 4 = gzip request history,
    5 = one request with reads that return data together with an error, 6 = gzip histories with failing bodies,
    7 = phases of concurrent requests on one plugin, 8 = gated histories, 9 = routed requests (auth / CORS / meta /
    emulate mode), 10 = requests over the plugin's own listener, 11 = Stop with a request in flight, 12 = routed requests with
-   arbitrary headers on a plugin with arbitrary meta templates, 13 = the same over the plugin's own listener *)
+   arbitrary headers on a plugin with arbitrary meta templates, 13 = the same over the plugin's own listener,
+   14 = bursts of simultaneous requests on fresh instances (source ids) *)
 Definition c11_entry (which : Z) (case obs : sx) : verdict :=
   match which with
   | 0 | 2 => c11_run case obs
@@ -986,6 +1078,7 @@ Definition c11_entry (which : Z) (case obs : sx) : verdict :=
   | 11 => c11_stop_run case obs
   | 12 => c11_hroute_run case obs
   | 13 => c11_hwire_run case obs
+  | 14 => c11_burst_run case obs
   | _ => match c11_id_model case with
          | Some m => exact_verdict m obs
          | None => BadCase
